@@ -263,11 +263,30 @@ fn os(s: &str) -> Option<OsString> {
 }
 
 /// the text handed to the formatter in pieces of at most three bytes (an escape sequence assembled by `write!`)
-struct Pieces<'a>(&'a str);
+/// (mode 1: every character through `write_char`; mode 2: strings and characters in turn)
+struct Pieces<'a>(&'a str, u8);
 
 impl std::fmt::Display for Pieces<'_> {
     fn fmt(&self, f: &mut std::fmt::Formatter<'_>) -> std::fmt::Result {
+        use std::fmt::Write as _;
         let s = self.0;
+        if self.1 == 1 {
+            for c in s.chars() {
+                f.write_char(c)?;
+            }
+            return Ok(());
+        }
+        if self.1 == 2 {
+            let mut buf = [0u8; 4];
+            for (k, c) in s.chars().enumerate() {
+                if k % 3 == 0 {
+                    f.write_str(c.encode_utf8(&mut buf))?;
+                } else {
+                    f.write_char(c)?;
+                }
+            }
+            return Ok(());
+        }
         let mut i = 0;
         while i < s.len() {
             let mut j = (i + 3).min(s.len());
@@ -331,7 +350,7 @@ fn adapted_mode(log: &mut impl Write, seed: u64, n: u64) {
             // (only where the stream itself survives such a value: std's write_fmt panics on it in pass-through mode)
             let (got, want) = if got == want && i % 3 == 1 {
                 // the same text arriving in small fragments
-                let pc = Pieces(&text);
+                let pc = Pieces(&text, ((i / 3) % 3) as u8);
                 let g2 = anstream::_macros::to_adapted_string(&pc, &sink);
                 let mut r2 = AutoStream::new(Vec::<u8>::new(), decided);
                 let _ = write!(r2, "{pc}");
@@ -427,6 +446,20 @@ fn main() {
             observe(&mut log, &st, ColorChoice::Auto, &[None, None, None, None, None, ct.clone()]);
         }
         std::env::remove_var("COLORTERM");
+        // TERM names beyond the four of the cross product: only the exact value "dumb" switches colour off, on every
+        // platform-independent path (names that mean something special on another platform included)
+        for name in ["cygwin", "msys", "xterm", "linux", "vt100", "ansi", "screen", "tmux-256color", "xterm-kitty", "alacritty", "unknown", "Dumb", "DUMB", "dumb ", " dumb", "dumb\n", "dumber", "du", "0", "xterm-mono", "emacs", "eterm-color", "rxvt-unicode-256color", "wezterm", "foot"] {
+            let t = os(name);
+            set("TERM", &t);
+            for (cc, c) in [(None, None), (os("0"), None), (None, os("true"))] {
+                set("CLICOLOR", &cc);
+                set("CI", &c);
+                observe(&mut log, &st, ColorChoice::Auto, &[None, None, cc.clone(), t.clone(), c.clone(), None]);
+            }
+        }
+        for v in VARS {
+            std::env::remove_var(v);
+        }
         clap_events(&mut log);
         // the standard streams are re-attached while the process runs: the decision follows what the descriptor is
         // attached to now (swap, swap back, swap again; a few environments in which the terminal test matters)
